@@ -42,12 +42,15 @@ def build_case(cid, g, ops, rng, sweep_chunk=None, flat=None, images=None):
             lines.append(k)
     # closing sequence: sweep, mapping, flush, snapshot, reopen with other parameters, sweep again
     total = g.size // cur_bs * cur_bs
-    chunk = sweep_chunk or max(cs * 4, 4096)
+    chunk = sweep_chunk or max(cs * 4, 4096, (g.size >> 7) // 4096 * 4096)
 
     def sweep(tagname):
+        nonlocal_bs = cur_bs
         off = 0
+        # chunks are deliberately not aligned to clusters / slices: a short first chunk shifts them
+        first = rng.randrange(1, max(2, chunk // nonlocal_bs)) * nonlocal_bs
         while off < total:
-            ln = min(chunk, total - off)
+            ln = min(chunk if off else first, total - off)
             plan.append({'k': 'R', 'op': ('R', off, ln), 'expect': flat.read(off, ln), 'sweep': tagname})
             lines.append('R %d %d' % (off, ln))
             off += ln
@@ -65,6 +68,7 @@ def build_case(cid, g, ops, rng, sweep_chunk=None, flat=None, images=None):
     plan.append({'k': 'O', 'op': ('O', g2.params()), 'reopen_params': g2.params()})
     lines.append('open ' + g2.params())
     total = g.size // (1 << bs2) * (1 << bs2)
+    cur_bs = 1 << bs2
     sweep('after')
     plan.append({'k': 'M', 'op': ('M',), 'after': True})
     lines.append('M')
